@@ -54,7 +54,7 @@ META = {
                     "generator bounds: rotation angle <= 4*pi, |log-scale| <= 8, finite inputs",
                     "relative error of the rotation block is measured against 1 (unit quaternion / orthogonal matrix), of the "
                     "scale block against e^sigma, of the translation block against |tau|_inf * (e^sigma-1)/sigma"],
-    "partial": ["rounding (reduced in pass 3 to four per-call accuracies gamma_q, gamma_s, gamma_t, gamma_M that are measured on every sampled case; theorems rounded_so3Exp / rounded_sim3Exp turn them into the entrywise bound for every input): the clause 'relative error at most k*eps / k*sqrt(eps)' is decided as theorem over the reals (57 theorems: "
+    "partial": ["rounding (reduced in pass 3 to four per-call accuracies gamma_q, gamma_s, gamma_t, gamma_M that are measured on every sampled case; theorems rounded_so3Exp / rounded_sim3Exp turn them into the entrywise bound for every input): the clause 'relative error at most k*eps / k*sqrt(eps)' is decided as theorem over the reals (58 theorems: "
                 "matrix(Exp x) = exp(generator) in every exact regime of all four types, entrywise bounds <= 9*eps*e^|sigma|*(1+|tau|_1) "
                 "for every input) + measured agreement of the float code with the 192-bit model and with mpmath on the generated inputs"],
 }
